@@ -28,7 +28,8 @@ CLAIM = ('The void-element decision is one boolean function used consistently by
          "the shapes it unpacks with attribute keys of the same form; the etree walker's ancestor stack is "
          'pushed before every descent and popped exactly once per ascent. text() yields leading HTML white '
          'space, text, trailing HTML white space as non-empty tokens for every sequence of character classes '
-         'up to length 4; the {namespace}local splitter ends the namespace at the first closing brace.')
+         'up to length 4; the {namespace}local splitter ends the namespace at the first closing brace.'
+         ' An attribute key that reads as Clark notation comes out as a namespaced, possibly empty name (known finding, shared with C04).')
 NOT_DECIDED = ("the traversal itself (index arithmetic, tail handling, balance of start/end tags), rebuild equality, equality "
                "of the etree and dom streams.")
 MODULES = ["treewalkers/base.py", "treewalkers/etree.py", "treewalkers/dom.py", "treewalkers/__init__.py", "filters/lint.py",
